@@ -11,7 +11,10 @@ export GOCACHE=${VERIF_GOCACHE:-$VERIF/.gocache}
 export TZ=UTC
 mkdir -p "$VERIF/bin" "$VERIF/evidence" "$VERIF/replays"
 BIN="$VERIF/bin/check.$$"
-trap 'rm -f "$BIN"' EXIT
+OV="$VERIF/bin/overlay.$$"
+trap 'rm -rf "$BIN" "$BIN.race" "$OV" "$OV.race"' EXIT
+ID="$1"
+if [ "$1" = "replay" ]; then ID=$(sed -n 's/.*"property": *"\([^"]*\)".*/\1/p' "$2" | head -1); fi
 (
   flock 9
   cd "$VERIF/mc" || exit 2
@@ -19,13 +22,24 @@ trap 'rm -f "$BIN"' EXIT
   cmp -s go.mod.new go.mod || mv go.mod.new go.mod
   rm -f go.mod.new
   cat "$REPO/go.sum" > go.sum
-  go build -o "$BIN" ./cmd/check
+  go build -o "$VERIF/bin/gen" ./cmd/gen || exit 2
+  if [ "$ID" = "C19" ]; then
+    # C19: yield points are inserted into copies of the evaluator sources (overlay, regenerated from the working tree)
+    "$VERIF/bin/gen" "$REPO" "$OV" instrument >/dev/null || exit 2
+    "$VERIF/bin/gen" "$REPO" "$OV.race" >/dev/null || exit 2
+    go build -overlay "$OV/overlay.json" -o "$BIN" ./cmd/check || exit 2
+    go build -race -overlay "$OV.race/overlay.json" -o "$BIN.race" ./cmd/check || exit 2
+  else
+    "$VERIF/bin/gen" "$REPO" "$OV" >/dev/null || exit 2
+    go build -overlay "$OV/overlay.json" -o "$BIN" ./cmd/check || exit 2
+  fi
 ) 9>"$VERIF/bin/.lock"
 rc=$?
 if [ $rc -ne 0 ] || [ ! -x "$BIN" ]; then
   echo "BUILD-FAILED: harness does not build against $REPO" >&2
   exit 2
 fi
+[ -x "$BIN.race" ] && export VERIF_RACE_BIN="$BIN.race"
 if [ "$1" = "replay" ]; then
   "$BIN" replay "$2"; exit $?
 fi
